@@ -33,8 +33,8 @@ CHECKS.update({
     ),
     "C05": dict(
         engine="LLSym",
-        technique="LLSym symbolic run of the real DP on trio shapes in trusted-genotype mode; z3 decides: child alleles come from the respective parent's genotype, the transmission value selects the parental haplotype under one fixed labelling, read-less columns with a homozygous parent are phased",
-        text="Bounded: 2-3 column trios with up to 2-3 reads, all alleles/weights/recombination costs symbolic.",
+        technique="LLSym symbolic run of the real DP on trio shapes in trusted-genotype mode; z3 decides: child alleles come from the respective parent's genotype, the transmission value selects the parental haplotype under one fixed labelling, read-less columns with a homozygous parent are phased; sub-check ped_parts: LLSym run of Pedigree + PedigreePartitions alone, all transmission values and every order of addRelationship calls - each child's partitions follow the two bits of the k-th added relationship (the decoding phase.py and --recombination-list use)",
+        text="Bounded: 2-3 column trios with up to 2-3 reads, all alleles/weights/recombination costs symbolic; ped_parts: trio, quartet (both orders), child listed before its parents (thorough: two trios, three generations, three children).",
         note="As C01. The labelling convention of the transmission bits is not spelled out by the statement; the weaker reading (one fixed convention for all inputs) is asserted. Conflict/missing-genotype filtering (Python) is claimed by sub-check ped_filter when present.",
         design_ref="DESIGN.md §4 C05",
     ),
